@@ -1,4 +1,5 @@
 import Cello.Hdr
+import Cello.HdrSlots
 import CelloGen.Hdr
 import Driver.Common
 /- driver for engine `hdr` (C19): one op per line (syntax: see harness/h_hdr.c); runs the model `Cello.Hdr.step` with the
@@ -286,6 +287,79 @@ def kfLine (name : String) : String :=
     | none => "bad-op"
   else "bad-op"
 
+/-! the slot level of Arrays (Cello/HdrSlots.lean): every Array handle has its storage, advanced by the statement lists read
+    from src/Array.c whenever the model executes a size-changing operation on it -/
+open Cello.HdrSlots in
+def arrOf (s : St) (id : Nat) : Option (Ty × List Elem) :=
+  match s.get id with
+  | some o => if o.live then (match o.body with | .seq .array ety es => some (ety, es) | _ => none) else none
+  | none => none
+
+open Cello.HdrSlots in
+/-- the operation of the slot machine that mirrors `op` on Array `id` (state `s` = before the op) -/
+def slotOp (s : St) (op : Op) : Option (Nat × AOp) :=
+  match op with
+  | .inplace ip (.obj id) =>
+    (match arrOf s id with
+     | none => none
+     | some _ =>
+       match ip with
+       | .push _ => some (id, .push)
+       | .pop => some (id, .pop)
+       | .pushAt _ i => some (id, .pushAt i)
+       | .popAt i => some (id, .popAt i)
+       | .resize m => some (id, .resize m)
+       | .concat src =>
+         (match s.get src with
+          | some o => (match o.body with | .seq _ _ more => some (id, .concat more.length) | _ => none)
+          | none => none)
+       | _ => none)
+  | _ => none
+
+open Cello.HdrSlots in
+def slotsAfter (sl : List (Nat × Arr)) (s s1 : St) (op : Op) (obs : Obs) : List (Nat × Arr) × List (String × Nat) :=
+  match op, obs with
+  | .make id _ (.seq .array ety vals), .made _ =>
+    -- the harness builds it as `new(Array, ety)` followed by one `push` per value
+    ((id, runOps (arrayHeader cfg ety) cfg.magic Arr.empty (List.replicate vals.length .push)) :: sl, [("push", vals.length)])
+  | .copy id src, .made _ =>
+    (match arrOf s src with
+     | some (ety, es) => ((id, (runOp (arrayHeader cfg ety) cfg.magic Arr.empty (.fill es.length)).1) :: sl, [("fill", 1)])
+     | none => (sl, []))
+  | _, .did _ _ _ =>
+    (match slotOp s op with
+     | some (id, aop) =>
+       (match arrOf s id, sl.lookup id with
+        | some (ety, _), some a =>
+          let r := runOp (arrayHeader cfg ety) cfg.magic a aop
+          let tag := match aop, r.2 with
+            | .pushAt _, .ok => if r.1.nslots != a.nslots then "pushat-grow" else "pushat"
+            | .push, .ok => if r.1.nslots != a.nslots then "push-grow" else "push"
+            | .pop, .ok => if r.1.nslots != a.nslots then "pop-shrink" else "pop"
+            | .popAt _, .ok => if r.1.nslots != a.nslots then "popat-shrink" else "popat"
+            | .concat _, .ok => "concat"
+            | .resize n, .ok => if n = 0 then "resize0" else if n < a.nitems then "resize-shrink" else if n == a.nitems then "resize-same" else "resize-grow"
+            | _, .raised _ => "refused"
+            | _, _ => "bad"
+          let atEnd := match aop, r.2 with | .pushAt k, .ok => if k == (a.nitems : Int) || k == -1 then [("pushat-end", 1)] else [] | _, _ => []
+          let fresh := match aop, r.2 with | .pushAt k, .ok => if (k == (a.nitems : Int) || k == -1) && a.nitems == a.nslots then [("pushat-end-fresh", 1)] else [] | _, _ => []
+          ((id, r.1) :: sl.filter (fun p => p.1 != id), [(tag, 1)] ++ atEnd ++ fresh)
+        | _, _ => (sl, []))
+     | none => (sl, []))
+  | _, _ => (if s1.freed.length == s.freed.length then sl else sl.filter (fun p => s1.isLive p.1), [])
+
+open Cello.HdrSlots in
+/-- ` slots=<nitems>/<nslots>/<slots type_of would reject>` of a live Array handle (`!` = the slot machine and the list model
+    disagree on the number of elements) -/
+def slotsSuffix (sl : List (Nat × Arr)) (s : St) (t : Target) : String :=
+  match t with
+  | .obj id =>
+    (match arrOf s id, sl.lookup id with
+     | some (_, es), some a => if a.nitems == es.length then s!" slots={a.nitems}/{a.nslots}/{a.badCount cfg.magic}" else " slots=!"
+     | some _, none => " slots=?"
+     | none, _ => "")
+  | _ => ""
+
 def showIds (l : List Nat) : String := if l.isEmpty then "-" else ",".intercalate (l.map toString)
 
 def main (args : List String) : IO Unit := do
@@ -293,6 +367,8 @@ def main (args : List String) : IO Unit := do
   let mut s : St := St.init
   let mut nOps := 0
   let mut nRefused := 0
+  let mut sl : List (Nat × Cello.HdrSlots.Arr) := []
+  let mut slotStats : List (String × Nat) := []
   for l in lines do
     if Driver.isSkippable l then continue
     let ws := Driver.words l
@@ -305,17 +381,23 @@ def main (args : List String) : IO Unit := do
       nOps := nOps + 1
       let nFreed := s.freed.length
       let (s1, obs) := step cfg s op
+      let (sl1, tags) := slotsAfter sl s s1 op obs
+      sl := sl1
+      for (k, n) in tags do
+        slotStats := match slotStats.lookup k with
+          | some c => (k, c + n) :: slotStats.filter (fun p => p.1 != k)
+          | none => (k, n) :: slotStats
       s := s1
       match obs with
       | .bad => IO.println "O bad-op"
       | .skip why => IO.println s!"O skip {why}"
-      | .made id => IO.println s!"O mk {id} {describe s (.obj id)}"
-      | .seen t => IO.println s!"O obs {describe s t}"
+      | .made id => IO.println s!"O mk {id} {describe s (.obj id)}{slotsSuffix sl s (.obj id)}"
+      | .seen t => IO.println s!"O obs {describe s t}{slotsSuffix sl s t}"
       | .did name out t =>
         match out with
         | .raised _ => nRefused := nRefused + 1
         | _ => pure ()
-        IO.println s!"O {name} exc={showOutcome out} {describe s t} rel={showIds (s.freed.drop nFreed)}"
+        IO.println s!"O {name} exc={showOutcome out} {describe s t}{slotsSuffix sl s t} rel={showIds (s.freed.drop nFreed)}"
       | .items l => IO.println ("O " ++ showItems l)
       | .swept how ids out =>
         -- the teardown (and a collection that loses a Type) is observed in a forked child: when that does not complete
@@ -326,3 +408,4 @@ def main (args : List String) : IO Unit := do
         let liveHeap := (s.objs.filter (fun p => p.2.live && p.2.hdr.alloc == cfg.cHeap)).length
         IO.println s!"O end released={s.freed.length} live={liveHeap} registered={s.reg.length}"
   IO.println s!"S ops={nOps} refused={nRefused} sound={cfg.Sound}"
+  IO.println ("S slots " ++ " ".intercalate (slotStats.map (fun p => s!"{p.1}={p.2}")))
